@@ -1,13 +1,22 @@
-(* IpMatch.v — model of casbin/util/builtin_operators.py ip_match (l.368-377) for IPv4 addresses and
-   IPv4 prefix-length networks, i.e. of the part of the standard-library `ipaddress` module it uses
-   (CPython 3.12: IPv4Address._ip_int_from_string/_parse_octet, _split_optional_netmask,
-   _prefix_from_prefix_string, _make_netmask, IPv4Network.__init__(strict=False), __contains__).
-   NOT modelled (the model answers Err ENotModelled): anything containing ':' (IPv6) and
-   dotted-quad netmasks/hostmasks after the '/'.  No proofs here. *)
+(* IpMatch.v — model of casbin/util/builtin_operators.py ip_match (l.367-376), i.e. of the part of the
+   standard-library `ipaddress` module it uses (CPython 3.12 Lib/ipaddress.py):
+     ip_address (l.28-52), ip_network (l.55-79), _split_optional_netmask (l.156-161),
+     _count_righthand_zero_bits (l.184-197), _ip_int_from_prefix, _prefix_from_ip_int,
+     _prefix_from_prefix_string, _prefix_from_ip_string (l.432-531), _split_addr_prefix,
+     _BaseNetwork.__contains__ (l.739-749),
+     _BaseV4._make_netmask/_ip_int_from_string/_parse_octet (l.1158-1243), IPv4Address.__init__,
+     IPv4Network.__init__(strict=False),
+     _BaseV6._make_netmask/_ip_int_from_string/_parse_hextet (l.1598-1740), _split_scope_id (l.1852-1869),
+     IPv6Address.__init__, IPv6Network.__init__(strict=False).
+   Both families, prefix-length networks, IPv4 dotted netmask / hostmask networks, IPv6 text with '::'
+   anywhere, embedded dotted-quad tail, '%zone' suffixes.  Arguments are strings (ints / bytes, which
+   ip_address also accepts, are outside the model).  No proofs here. *)
 From Coq Require Import List NArith Bool.
 From PyCasbin Require Import Base PatBase.
 Import ListNotations.
 Local Open Scope N_scope.
+
+Definition cPCT : N := 37.   (* % *)
 
 (* str.split(sep): always at least one piece *)
 Fixpoint split_on (sep : N) (s : str) : list str :=
@@ -21,8 +30,19 @@ Fixpoint split_on (sep : N) (s : str) : list str :=
          end
   end.
 
+(* sep.join(parts) *)
+Fixpoint join (sep : N) (ps : list str) : str :=
+  match ps with
+  | [] => []
+  | p :: rest => match rest with [] => p | _ :: _ => p ++ sep :: join sep rest end
+  end.
+
+Definition has_char (c : N) (s : str) : bool := existsb (fun x => x =? c) s.
+Definition has_colon (s : str) : bool := has_char cCOLON s.
+
 Definition parse_dec (s : str) : N := fold_left (fun a c => a * 10 + (c - 48)) s 0.
 
+(* ================================================================ IPv4 text *)
 (* ipaddress.IPv4Address._parse_octet *)
 Definition parse_octet (s : str) : option N :=
   match s with
@@ -35,7 +55,8 @@ Definition parse_octet (s : str) : option N :=
          if 255 <? v then None else Some v
   end.
 
-(* IPv4Address._ip_int_from_string: exactly four octets, big endian *)
+(* IPv4Address._ip_int_from_string: exactly four octets, big endian
+   (also IPv4Address(str): a '/' can never pass _parse_octet) *)
 Definition parse_ip4 (s : str) : option N :=
   match split_on cDOT s with
   | [a; b; c; d] =>
@@ -46,19 +67,200 @@ Definition parse_ip4 (s : str) : option N :=
   | _ => None
   end.
 
-Inductive netres := NetOk (net prefixlen : N) | NetBad | NetUnmodelled.
+(* ================================================================ IPv6 text *)
+Definition hex_val (c : N) : option N :=
+  if is_digit c then Some (c - 48)
+  else if (97 <=? c) && (c <=? 102) then Some (c - 87)     (* a-f *)
+  else if (65 <=? c) && (c <=? 70) then Some (c - 55)      (* A-F *)
+  else None.
+Definition is_hex (c : N) : bool := match hex_val c with Some _ => true | None => false end.
+Definition hex_digit_val (c : N) : N := match hex_val c with Some v => v | None => 0 end.
+Definition parse_hex (s : str) : N := fold_left (fun a c => a * 16 + hex_digit_val c) s 0.
 
-Definition digit_or_dot (c : N) : bool := is_digit c || (c =? cDOT).
+(* _BaseV6._parse_hextet: hex digits only, at most 4; int('', 16) raises ValueError as well *)
+Definition parse_hextet (s : str) : option N :=
+  if negb (forallb is_hex s) then None
+  else if Nat.ltb 4 (length s) then None
+  else if is_nil s then None
+  else Some (parse_hex s).
 
-(* the text after '/' *)
+(* '%x' % v for v < 65536 (the only use: the two halves of an embedded dotted quad; renderings) *)
+Definition hex_digit (d : N) : N := if d <? 10 then 48 + d else 87 + d.
+Definition hex4 (v : N) : str :=
+  [hex_digit (v / 4096 mod 16); hex_digit (v / 256 mod 16); hex_digit (v / 16 mod 16); hex_digit (v mod 16)].
+Fixpoint strip0 (s : str) : str :=
+  match s with
+  | [] => []
+  | c :: r => match r with
+              | [] => s
+              | _ :: _ => if c =? 48 then strip0 r else s
+              end
+  end.
+Definition hex_of (v : N) : str := strip0 (hex4 v).
+
+(* indices (counted from i) of the empty parts of ps, its last element excluded:
+   the loop `for i in range(1, len(parts) - 1): if not parts[i]` run on parts[1:] *)
+Fixpoint mid_empties (i : nat) (ps : list str) : list nat :=
+  match ps with
+  | [] => []
+  | p :: rest => match rest with
+                 | [] => []
+                 | _ :: _ => (if is_nil p then [i] else []) ++ mid_empties (S i) rest
+                 end
+  end.
+
+Fixpoint parse_hextets (ps : list str) : option (list N) :=
+  match ps with
+  | [] => Some []
+  | p :: rest => match parse_hextet p, parse_hextets rest with
+                 | Some v, Some l => Some (v :: l)
+                 | _, _ => None
+                 end
+  end.
+
+(* ip_int <<= 16; ip_int |= hextet   (hextet < 2^16, so | is +) *)
+Definition compose (acc : N) (l : list N) : N := fold_left (fun a v => a * 65536 + v) l acc.
+
+(* _ip_int_from_string from "An IPv6 address can't have more than 8 colons" on, given the parts *)
+Definition v6_from_parts (parts : list str) : option N :=
+  let n := length parts in
+  if Nat.ltb 9 n then None                                 (* "At most 8 colons permitted" *)
+  else
+    match mid_empties 1 (tl parts) with
+    | _ :: _ :: _ => None                                  (* "At most one '::' permitted" *)
+    | [k] =>
+      let hd_empty := is_nil (hd [] parts) in
+      let last_empty := is_nil (last parts []) in
+      let hi := if hd_empty then (k - 1)%nat else k in
+      let lo := if last_empty then (n - k - 1 - 1)%nat else (n - k - 1)%nat in
+      if hd_empty && negb (Nat.eqb hi 0) then None         (* "Leading ':' only permitted as part of '::'" *)
+      else if last_empty && negb (Nat.eqb lo 0) then None  (* "Trailing ':' only permitted as part of '::'" *)
+      else if Nat.leb 8 (hi + lo) then None                (* parts_skipped < 1 *)
+      else
+        match parse_hextets (firstn hi parts), parse_hextets (skipn (n - lo) parts) with
+        | Some vh, Some vl =>
+          Some (compose (N.shiftl (compose 0 vh) (16 * N.of_nat (8 - (hi + lo)))) vl)
+        | _, _ => None
+        end
+    | [] =>
+      if negb (Nat.eqb n 8) then None                      (* "Exactly 8 parts expected without '::'" *)
+      else if is_nil (hd [] parts) then None
+      else if is_nil (last parts []) then None
+      else match parse_hextets parts with
+           | Some v => Some (compose 0 v)
+           | None => None
+           end
+    end.
+
+(* _BaseV6._ip_int_from_string *)
+Definition parse_ip6 (s : str) : option N :=
+  if is_nil s then None                                    (* "Address cannot be empty" *)
+  else
+    let parts := split_on cCOLON s in
+    if Nat.ltb (length parts) 3 then None                  (* "At least 3 parts expected" *)
+    else
+      let lastp := last parts [] in
+      if has_char cDOT lastp then                          (* IPv4-style suffix -> two hextets *)
+        match parse_ip4 lastp with
+        | Some w => v6_from_parts (removelast parts ++ [hex_of (w / 65536 mod 65536); hex_of (w mod 65536)])
+        | None => None
+        end
+      else v6_from_parts parts.
+
+(* str.partition(sep): text before the first sep, and the text after it when there is one *)
+Fixpoint partition_on (sep : N) (s : str) : str * option str :=
+  match s with
+  | [] => ([], None)
+  | c :: r => if c =? sep then ([], Some r)
+              else let (a, b) := partition_on sep r in (c :: a, b)
+  end.
+
+(* _split_scope_id: the address part; None = AddressValueError (empty zone, second '%') *)
+Definition split_scope_id (s : str) : option str :=
+  match partition_on cPCT s with
+  | (a, None) => Some a
+  | (a, Some z) => if is_nil z || has_char cPCT z then None else Some a
+  end.
+
+(* the address text of an IPv6Address / IPv6Network once '/' is out of the way: zone dropped
+   (__contains__ compares _ip only; strict=False rebuilds the network address from the integer) *)
+Definition parse_ip6_scoped (s : str) : option N :=
+  match split_scope_id s with
+  | Some a => parse_ip6 a
+  | None => None
+  end.
+
+(* ================================================================ ip_address *)
+Inductive fam := V4 | V6.
+Definition fam_eqb (f g : fam) : bool :=
+  match f, g with V4, V4 => true | V6, V6 => true | _, _ => false end.
+Definition width (f : fam) : N := match f with V4 => 32 | V6 => 128 end.
+
+(* ipaddress.ip_address(str): IPv4Address, else IPv6Address ("Unexpected '/'" first), else ValueError *)
+Definition parse_addr (s : str) : option (fam * N) :=
+  match parse_ip4 s with
+  | Some x => Some (V4, x)
+  | None =>
+    if has_char cSLASH s then None
+    else match parse_ip6_scoped s with
+         | Some x => Some (V6, x)
+         | None => None
+         end
+  end.
+
+(* ================================================================ netmasks *)
+(* _prefix_from_prefix_string: ASCII digits only (no sign, no blank; leading zeros pass), int(), range;
+   int() refuses more than 4300 digits (sys.get_int_max_str_digits()) *)
+Definition prefix_from_prefix_string (W : N) (m : str) : option N :=
+  if is_nil m then None
+  else if negb (forallb is_digit m) then None
+  else if 4300 <? N.of_nat (length m) then None
+  else let n := parse_dec m in if W <? n then None else Some n.
+
+(* (~number & (number - 1)).bit_length() for number <> 0 : number of trailing zero bits *)
+Fixpoint ctz (fuel : nat) (m : N) : N :=
+  match fuel with
+  | O => 0
+  | S f => if N.odd m then 0 else 1 + ctz f (N.div2 m)
+  end.
+Definition count_righthand_zero_bits (m bits : N) : N :=
+  if m =? 0 then bits else N.min bits (ctz 32 m).
+
+(* _prefix_from_ip_int for IPv4: /1*0*/ *)
+Definition prefix_from_ip_int (m : N) : option N :=
+  let tz := count_righthand_zero_bits m 32 in
+  let p := 32 - tz in
+  if N.shiftr m tz =? N.shiftl 1 p - 1 then Some p else None.
+
+Definition ones32 : N := 4294967295.
+
+(* _prefix_from_ip_string after the text is parsed: netmask first (so 0.0.0.0 is /0 and
+   255.255.255.255 is /32), then `ip_int ^= _ALL_ONES` and the same test for a hostmask *)
+Definition prefix_from_mask_int (m : N) : option N :=
+  match prefix_from_ip_int m with
+  | Some p => Some p
+  | None => prefix_from_ip_int (N.lxor m ones32)
+  end.
+
+Definition prefix_from_ip_string (t : str) : option N :=
+  match parse_ip4 t with
+  | None => None
+  | Some m => prefix_from_mask_int m
+  end.
+
+Inductive netres := NetOk (net prefixlen : N) | NetBad.
+
+(* _BaseV4._make_netmask on the text after '/' *)
 Definition parse_prefix (m : str) : netres :=
-  if is_nil m then NetBad
-  else if forallb is_digit m then
-    let n := parse_dec m in if 32 <? n then NetBad else NetOk 0 n
-  else if forallb digit_or_dot m then NetUnmodelled        (* netmask / hostmask notation *)
-  else NetBad.
+  match prefix_from_prefix_string 32 m with
+  | Some n => NetOk 0 n
+  | None => match prefix_from_ip_string m with
+            | Some n => NetOk 0 n
+            | None => NetBad
+            end
+  end.
 
-(* ipaddress.ip_network(s, strict=False) restricted to IPv4 *)
+(* IPv4Network(s, strict=False): address, prefix length *)
 Definition parse_net (s : str) : netres :=
   match split_on cSLASH s with
   | [a] => match parse_ip4 a with Some x => NetOk x 32 | None => NetBad end
@@ -66,41 +268,108 @@ Definition parse_net (s : str) : netres :=
     match parse_prefix m with
     | NetOk _ n => match parse_ip4 a with Some x => NetOk x n | None => NetBad end
     | NetBad => NetBad
-    | NetUnmodelled => match parse_ip4 a with Some _ => NetUnmodelled | None => NetBad end
     end
   | _ => NetBad                                            (* "Only one '/' permitted" *)
   end.
 
-Definition ones32 : N := 4294967295.
-(* IPv4Network._make_netmask: _ALL_ONES ^ (_ALL_ONES >> prefixlen) *)
-Definition netmask (n : N) : N := N.lxor ones32 (N.shiftr ones32 n).
+(* IPv6Network(s, strict=False): no dotted netmask form (_BaseV6._make_netmask) *)
+Definition parse_net6 (s : str) : netres :=
+  match split_on cSLASH s with
+  | [a] => match parse_ip6_scoped a with Some x => NetOk x 128 | None => NetBad end
+  | [a; m] =>
+    match prefix_from_prefix_string 128 m with
+    | Some n => match parse_ip6_scoped a with Some x => NetOk x n | None => NetBad end
+    | None => NetBad
+    end
+  | _ => NetBad
+  end.
 
-Definition has_colon (s : str) : bool := existsb (fun c => c =? cCOLON) s.
+(* ipaddress.ip_network(s, strict=False) *)
+Definition parse_network (s : str) : option (fam * N * N) :=
+  match parse_net s with
+  | NetOk net n => Some (V4, net, n)
+  | NetBad =>
+    match parse_net6 s with
+    | NetOk net n => Some (V6, net, n)
+    | NetBad => None
+    end
+  end.
 
+(* _ip_int_from_prefix: _ALL_ONES ^ (_ALL_ONES >> prefixlen) *)
+Definition mask (W n : N) : N := N.lxor (N.ones W) (N.shiftr (N.ones W) n).
+Definition netmask (n : N) : N := mask 32 n.
+
+(* ================================================================ ip_match *)
 Definition ip_match (ip1 ip2 : str) : result bool :=
-  if has_colon ip1 || has_colon ip2 then Err ENotModelled
-  else
-    match parse_ip4 ip1 with
-    | None => Err EValue                                   (* l.372: ValueError propagates *)
-    | Some x =>
-      match parse_net ip2 with
-      | NetBad => Ok false                                 (* l.376-377: IPv4Address == str is False *)
-      | NetUnmodelled => Err ENotModelled
-      | NetOk net n =>                                     (* strict=False: network_address = net & mask; l.375 *)
-        Ok (N.land x (netmask n) =? N.land net (netmask n))
-      end
-    end.
+  match parse_addr ip1 with
+  | None => Err EValue                                     (* l.371: ValueError propagates *)
+  | Some (f, x) =>
+    match parse_network ip2 with
+    | None => Ok false                                     (* l.375-376: IPv?Address == str is False *)
+    | Some (g, net, n) =>
+      if negb (fam_eqb f g) then Ok false                  (* __contains__: versions differ *)
+      else                                                 (* strict=False: network_address = net & mask *)
+        Ok (N.land x (mask (width g) n) =? N.land net (mask (width g) n))
+    end
+  end.
 
-(* ---------------------------------------------------------------- spec: CIDR membership as arithmetic *)
-Definition in_block (x net n : N) : bool := x / 2 ^ (32 - n) =? net / 2 ^ (32 - n).
+(* ================================================================ spec: block membership as arithmetic *)
+Definition in_block_w (W x net n : N) : bool := x / 2 ^ (W - n) =? net / 2 ^ (W - n).
+Definition in_block (x net n : N) : bool := in_block_w 32 x net n.
 
-(* documented form of the two arguments: a dotted quad, and a dotted quad optionally followed by /n *)
+(* documented form of the two arguments: an address of either family, and an address of either family
+   optionally followed by /prefix-length (IPv4: or /netmask, /hostmask).  Zone suffixes ('%eth0') are
+   accepted by the code and by the model (the zone is ignored) but are left outside the documented form:
+   the spec makes no claim about them. *)
 Definition ip_doc (ip1 ip2 : str) : bool :=
-  negb (has_colon ip1) && negb (has_colon ip2) &&
-  match parse_ip4 ip1, parse_net ip2 with Some _, NetOk _ _ => true | _, _ => false end.
+  negb (has_char cPCT ip1) && negb (has_char cPCT ip2) &&
+  match parse_addr ip1, parse_network ip2 with Some _, Some _ => true | _, _ => false end.
 
 Definition ip_spec (ip1 ip2 : str) : bool :=
-  match parse_ip4 ip1, parse_net ip2 with
-  | Some x, NetOk net n => in_block x net n
+  match parse_addr ip1, parse_network ip2 with
+  | Some (f, x), Some (g, net, n) => fam_eqb f g && in_block_w (width g) x net n
   | _, _ => false
+  end.
+
+(* ================================================================ spec vocabulary for IPv6 texts *)
+(* a group text: one to four hex digits in any case, denoting v *)
+Definition hextet_text (t : str) (v : N) : Prop := parse_hextet t = Some v.
+
+(* the optional dotted-quad tail of an IPv6 text and the two groups it stands for *)
+Inductive tail_text : list str -> list N -> Prop :=
+| TT_none : tail_text [] []
+| TT_quad : forall q w, parse_ip4 q = Some w -> tail_text [q] [w / 65536; w mod 65536].
+
+(* ================================================================ renderings of an IPv6 integer *)
+Fixpoint groups_rev (k : nat) (n : N) : list N :=
+  match k with
+  | O => []
+  | S k' => (n mod 65536) :: groups_rev k' (n / 65536)
+  end.
+Definition groups_of (n : N) : list N := rev (groups_rev 8 n).
+
+(* text with '::' between the hextets pre and post (either may be empty) *)
+Definition text6_dc (pre post : list str) : str :=
+  join cCOLON ((if is_nil pre then [[]] else pre) ++ [[]] ++ (if is_nil post then [[]] else post)).
+
+(* exploded form: 8 groups of 4 lower-case hex digits *)
+Definition render6_full (n : N) : str := join cCOLON (map hex4 (groups_of n)).
+
+Definition zero_run (g : list N) (start len : nat) : bool :=
+  Nat.eqb (length (firstn len (skipn start g))) len && forallb (fun v => v =? 0) (firstn len (skipn start g)).
+
+(* candidate (start, length) pairs: longer runs first, then leftmost; runs of one group are not compressed *)
+Definition run_candidates : list (nat * nat) :=
+  flat_map (fun len => map (fun start => (start, len)) (seq 0 (9 - len))) [8; 7; 6; 5; 4; 3; 2]%nat.
+
+Definition best_run (g : list N) : option (nat * nat) :=
+  find (fun sl => zero_run g (fst sl) (snd sl)) run_candidates.
+
+(* RFC 5952 canonical form (= str(IPv6Address(n))): lower case, no leading zeros, the longest run of
+   two or more zero groups (the first one among equals) written as '::' *)
+Definition render6_compressed (n : N) : str :=
+  let g := groups_of n in
+  match best_run g with
+  | Some (start, len) => text6_dc (map hex_of (firstn start g)) (map hex_of (skipn (start + len) g))
+  | None => join cCOLON (map hex_of g)
   end.
